@@ -12,6 +12,7 @@ import (
 	"github.com/pion/rtcp"
 	"github.com/pion/rtp"
 
+	"github.com/bluenviron/gortsplib/v5/pkg/description"
 	"github.com/bluenviron/gortsplib/v5/pkg/headers"
 	"github.com/bluenviron/gortsplib/v5/pkg/mikey"
 )
@@ -210,4 +211,49 @@ func (s *Server) VerifSetReportPeriods(sender time.Duration, receiver time.Durat
 func (c *Client) VerifSetReportPeriods(sender time.Duration, receiver time.Duration) {
 	c.senderReportPeriod = sender
 	c.receiverReportPeriod = receiver
+}
+
+// VerifSessionSRTPKeysFor returns, for each of the given medias (nil entry when not set up), the
+// outgoing key, outgoing MKI, incoming key, incoming MKI of a server session.
+func (ss *ServerSession) VerifSessionSRTPKeysFor(medias []*description.Media) []*[4][]byte {
+	ret := make([]*[4][]byte, len(medias))
+	for i, m := range medias {
+		sm, ok := ss.setuppedMedias[m]
+		if !ok {
+			continue
+		}
+		var e [4][]byte
+		if sm.srtpOutCtx != nil {
+			e[0] = sm.srtpOutCtx.key
+			e[1] = sm.srtpOutCtx.mki
+		}
+		if sm.srtpInCtx != nil {
+			e[2] = sm.srtpInCtx.key
+			e[3] = sm.srtpInCtx.mki
+		}
+		ret[i] = &e
+	}
+	return ret
+}
+
+// VerifClientSRTPKeysFor is VerifSessionSRTPKeysFor for a client.
+func (c *Client) VerifClientSRTPKeysFor(medias []*description.Media) []*[4][]byte {
+	ret := make([]*[4][]byte, len(medias))
+	for i, m := range medias {
+		cm, ok := c.setuppedMedias[m]
+		if !ok {
+			continue
+		}
+		var e [4][]byte
+		if cm.srtpOutCtx != nil {
+			e[0] = cm.srtpOutCtx.key
+			e[1] = cm.srtpOutCtx.mki
+		}
+		if cm.srtpInCtx != nil {
+			e[2] = cm.srtpInCtx.key
+			e[3] = cm.srtpInCtx.mki
+		}
+		ret[i] = &e
+	}
+	return ret
 }
